@@ -6,6 +6,7 @@ CONSTANTS
   MaxForget = 1000000
   MaxFail = 1000000
   Cancellable <- TCanc
+  MaxReprepare = 1000000
   UniqueIds = TRUE
   Plans = {}
 INVARIANTS Report Finished
